@@ -58,7 +58,8 @@ impl Labels {
 	pub(crate) fn get_or_create_range(&mut self, start_pc: u16, length: u16) -> Result<LabelRange> {
 		Ok(LabelRange {
 			start: self.get_or_create(start_pc)?,
-			end: self.get_or_create_check_exclusive(start_pc + length)?,
+			end: self.get_or_create_check_exclusive(start_pc.checked_add(length)
+				.with_context(|| anyhow!("range of bytecode offset {start_pc:?} and length {length:?} ends after 65535"))?)?,
 		})
 	}
 
